@@ -18,6 +18,7 @@ HEAD = (
     "from Reduino.Utils import sleep\nfrom Reduino.Displays import LCD\nfrom Reduino.Sensors import Potentiometer\n"
     'mon = SerialMonitor(9600, "COM3")\n'
 )
+POT_READING = 600  # the only analog input of the LCD scripts reads this on every sample
 TEXT_ALPHABET = "abcdefghijklmnopqrstuvwxyzABCDEFGHIJKLMNOPQRSTUVWXYZ0123456789 !#$%&()*+,-./:;<=>?[]^_{|}~"
 
 
@@ -162,9 +163,20 @@ def derive_progress(script: str, passes: int) -> List[Dict[str, dict]]:
     cols = rows = None
     setup_ops, loop_ops = [], []
 
+    class _Pot:
+        def read(self):
+            return POT_READING
+
+    names = {"pot": _Pot()}
+
     def lit(node, default=None):
         try:
             return ast.literal_eval(node)
+        except Exception:
+            pass
+        try:
+            # run-time arguments are arithmetic over the (constant) potentiometer reading and plain variables
+            return eval(compile(ast.Expression(node), "<arg>", "eval"), {"__builtins__": {}}, names)
         except Exception:
             return default
 
@@ -174,6 +186,8 @@ def derive_progress(script: str, passes: int) -> List[Dict[str, dict]]:
             if isinstance(st, ast.Assign) and isinstance(st.value, ast.Call) and getattr(st.value.func, "id", "") == "LCD" and st.targets[0].id == "lcd":
                 kw = {k.arg: lit(k.value) for k in st.value.keywords}
                 cols, rows = kw.get("cols", 16), kw.get("rows", 2)
+            elif isinstance(st, ast.Assign) and isinstance(st.targets[0], ast.Name) and not isinstance(st.value, ast.Call):
+                names[st.targets[0].id] = lit(st.value)
             elif isinstance(st, ast.While):
                 scan(st.body, loop_ops)
             elif isinstance(st, ast.Expr) and isinstance(st.value, ast.Call) and isinstance(st.value.func, ast.Attribute):
@@ -297,12 +311,54 @@ class LcdGen:
                 extra += ", rw=10"
             decl = f"lcd = LCD(rs=12, en=11, d4=5, d5=4, d6=3, d7=2, cols={cols}, rows={rows}{extra})"
         lines = [decl]
+        runtime = r.random() < 0.5
+        if runtime:
+            lines.append('pot = Potentiometer("A0")')
+        rt_count = [0]
+
+        def rt_arg(value, kind="int"):
+            """``value`` as a literal, or computed from the potentiometer reading so that it is only known at run time."""
+            if not runtime or r.random() < 0.5:
+                return str(value)
+            if kind == "bool":
+                truth = value in ("True", "1")
+                expr = r.choice([f"pot.read() > {r.choice([0, 300, 599])}", f"pot.read() == {POT_READING}"]) if truth else r.choice([f"pot.read() > {r.choice([600, 700, 1023])}", "pot.read() < 5"])
+            else:
+                expr = f"pot.read() - {POT_READING - int(value)}"
+            if r.random() < 0.5:
+                return expr
+            rt_count[0] += 1
+            name = f"rv{rt_count[0]}"
+            pre.append(f"{name} = {expr}")
+            return name
+
+        pre: List[str] = []
+        starts: List[int] = []
         meta = {"progress": {}, "backlight_pin": backlight_pin, "backlight_lcd": 0, "i2c": {"0": i2c}, "cols": cols, "rows": rows}
         sync = 0
         active: Dict[str, dict] = {}
 
         def q(s: str) -> str:
             return '"' + s.replace("\\", "\\\\").replace('"', '\\"') + '"'
+
+        def text_arg() -> str:
+            """Display text as a literal, through a variable, or assembled at run time (an f-string over the reading)."""
+            t = self.text(cols)
+            style = r.choice(["lit", "lit", "lit", "var", "fstr"])
+            if style == "lit" or (style == "fstr" and not runtime):
+                return q(t)
+            rt_count[0] += 1
+            name = f"tx{rt_count[0]}"
+            if style == "var":
+                pre.append(f"{name} = {q(t)}")
+                return name
+            cut_at = r.randint(0, len(t))
+            esc = lambda x: x.replace("\\", "\\\\").replace('"', '\\"').replace("{", "{{").replace("}", "}}")  # noqa: E731
+            expr = 'f"' + esc(t[:cut_at]) + "{pot.read()}" + esc(t[cut_at:]) + '"'
+            if r.random() < 0.5:
+                return expr
+            pre.append(f"{name} = {expr}")
+            return name
 
         n_ops = r.randint(1, 15 if self.tier == "quick" else 30)
         where_loop = r.random() < 0.3
@@ -321,7 +377,7 @@ class LcdGen:
                 if r.random() < 0.6:
                     kw.append(f'align="{r.choice(["left", "center", "right", "CENTER", "Right"])}"')
                 r.shuffle(kw)
-                stmt = [f"lcd.write({col}, {row}, {q(self.text(cols))}{''.join(', ' + k for k in kw)})"]
+                stmt = [f"lcd.write({col}, {row}, {text_arg()}{''.join(', ' + k for k in kw)})"]
             elif kind == "line":
                 kw = []
                 if r.random() < 0.6:
@@ -329,14 +385,14 @@ class LcdGen:
                 if r.random() < 0.5:
                     kw.append(f"clear_row={r.choice(['True', 'False'])}")
                 r.shuffle(kw)
-                stmt = [f"lcd.line({row}, {q(self.text(cols))}{''.join(', ' + k for k in kw)})"]
+                stmt = [f"lcd.line({row}, {text_arg()}{''.join(', ' + k for k in kw)})"]
             elif kind == "message":
                 if rows < 2 and "message_one_row" in self.avoid:
                     continue
                 if rows < 2:
                     self.features.add("message_one_row")
-                top = q(self.text(cols)) if r.random() < 0.8 else "None"
-                bottom = q(self.text(cols)) if r.random() < 0.8 else "None"
+                top = text_arg() if r.random() < 0.8 else "None"
+                bottom = text_arg() if r.random() < 0.8 else "None"
                 kw = []
                 if r.random() < 0.4:
                     kw.append(f'top_align="{r.choice(["left", "center", "right"])}"')
@@ -384,19 +440,23 @@ class LcdGen:
                     offset = (len(label) + 1) if label else 0
                     active[str(row)] = {"lcd": 0, "row": row, "fill": fill, "width": eff_width, "value": v, "max": maxv, "offset": offset}
                     meta["progress"][marker] = copy.deepcopy(active)
-                    body.append(f"lcd.progress({row}, {v}{maxtxt}{''.join(', ' + k for k in kw)})")
+                    vtxt = rt_arg(v)
+                    starts.append(len(body))
+                    body.extend(pre)
+                    del pre[:]
+                    body.append(f"lcd.progress({row}, {vtxt}{maxtxt}{''.join(', ' + k for k in kw)})")
                     body.append(f'mon.write("{marker}")')
                 continue
             elif kind == "display":
-                stmt = [f"lcd.display({r.choice(['True', 'False', '1', '0'])})"]
+                stmt = [f"lcd.display({rt_arg(r.choice(['True', 'False', '1', '0']), 'bool')})"]
                 rows_touched = []
             elif kind == "backlight":
-                stmt = [f"lcd.backlight({r.choice(['True', 'False'])})"]
+                stmt = [f"lcd.backlight({rt_arg(r.choice(['True', 'False']), 'bool')})"]
                 rows_touched = []
             elif kind == "brightness":
                 if i2c or backlight_pin is None:
                     continue
-                stmt = [f"lcd.brightness({r.choice([0, 1, 128, 254, 255, r.randint(0, 255)])})"]
+                stmt = [f"lcd.brightness({rt_arg(r.choice([0, 1, 128, 254, 255, r.randint(0, 255)]))})"]
                 rows_touched = []
             elif kind == "glyph":
                 slot = r.randint(0, 7)
@@ -407,18 +467,21 @@ class LcdGen:
             for rt in rows_touched:
                 active.pop(str(rt), None)
             meta["progress"][f"@{sync}"] = copy.deepcopy(active)
+            starts.append(len(body))
+            body.extend(pre)
+            del pre[:]
             body.extend(stmt)
             body.append(f'mon.write("@{sync}")')
         passes = 0
         if where_loop and body:
-            cut = r.randint(0, len(body) // 2) * 2
+            cut = r.choice(starts[: len(starts) // 2 + 1] + [0])
             lines += body[:cut]
             lines.append("while True:")
             lines += ["    " + b for b in (body[cut:] or ["sleep(1)"])]
             passes = r.choice([1, 2, 3])
         else:
             lines += body
-        return {"script": HEAD + "\n".join(lines) + "\n", "world": {"passes": passes}, "meta": meta, "features": sorted(self.features)}
+        return {"script": HEAD + "\n".join(lines) + "\n", "world": {"passes": passes, "ain": {"14": [POT_READING]}}, "meta": meta, "features": sorted(self.features)}
 
 
 class E6Text(Engine):
@@ -520,10 +583,17 @@ class E6Anim(Engine):
                 "loop": r.random() < 0.5,
                 "kw": r.random() < 0.5,
             })
+        # where each animation is started: before the main loop, inside a helper function (called before the loop
+        # or from it), or inside the loop body on a given pass; it must be advanced on every later pass either way
+        late_ok = "anim_started_late" not in avoid
+        for a in anims:
+            a["where"] = r.choice(["setup", "setup", "setup", "helper", "loop", "loop_helper"]) if late_ok else "setup"
+            a["start_pass"] = r.choice([0, 1, 2, 5]) if a["where"] in ("loop", "loop_helper") else -1
+        max_start = max(a["start_pass"] for a in anims) + 1
         longest = max(len(a["text"]) for a in anims)
         bound = 4 * (longest + cols) + 8
         schedule = r.choice(["on_time", "on_time", "early", "late", "mixed", "jump"])
-        horizon = min(400, bound + r.choice([6, 20, 40])) if schedule == "on_time" else r.choice([10, 40, 120])
+        horizon = min(400, bound + max_start + r.choice([6, 20, 40])) if schedule == "on_time" else r.choice([10, 40, 120])
         max_speed = max(a["speed_ms"] for a in anims)
         gaps = []
         for _ in range(horizon):
@@ -544,14 +614,29 @@ class E6Anim(Engine):
         else:
             decl = f"lcd = LCD(rs=12, en=11, d4=5, d5=4, d6=3, d7=2, cols={cols}, rows={rows})"
         lines = [decl]
-        for a in anims:
+        defs: List[str] = []
+        in_loop: List[str] = []
+        for i, a in enumerate(anims):
             text = '"' + a["text"].replace("\\", "\\\\") + '"'
             loop = "True" if a["loop"] else "False"
             if a["kw"]:
-                lines.append(f'lcd.animate("{a["style"]}", {a["row"]}, {text}, speed_ms={a["speed_ms"]}, loop={loop})')
+                call = f'lcd.animate("{a["style"]}", {a["row"]}, {text}, speed_ms={a["speed_ms"]}, loop={loop})'
             else:
-                lines.append(f'lcd.animate(style="{a["style"]}", row={a["row"]}, text={text}, loop={loop}, speed_ms={a["speed_ms"]})')
+                call = f'lcd.animate(style="{a["style"]}", row={a["row"]}, text={text}, loop={loop}, speed_ms={a["speed_ms"]})'
+            if a["where"] in ("helper", "loop_helper"):
+                defs += [f"def start{i}():", "    " + call]
+                call = f"start{i}()"
+            if a["where"] in ("loop", "loop_helper"):
+                in_loop += [f"    if n == {a['start_pass'] + 1}:", "        " + call]
+            else:
+                lines.append(call)
+        lines = [lines[0]] + defs + lines[1:]
+        if in_loop:
+            lines.append("n = 0")
         lines.append("while True:")
+        if in_loop:
+            lines.append("    n = n + 1")
+            lines += in_loop
         if sleep_ms is not None:
             lines.append(f"    sleep({sleep_ms})")
         lines.append('    mon.write("T")')
@@ -626,21 +711,24 @@ class E6Anim(Engine):
             return ("off-display", f"cell outside the display addressed: {oob[0]}")
         prev_ticks = None
         steps: Dict[int, List[Tuple[int, int]]] = {a["row"]: [] for a in anims}  # row -> [(pass, millis)]
-        n_loop = sum(1 for a in anims if a["loop"])
+        prev_eligible = None
         for k in range(passes):
             evs = by_pass.get(k, [])
+            eligible = [a for a in anims if a.get("start_pass", -1) < k]  # started before this pass's ticks
+            n_loop = sum(1 for a in eligible if a["loop"])
             dly = [int(r) for _t, kind, r in evs if kind == "DLY"]
             want = [] if case["sleep_ms"] is None else [case["sleep_ms"]]
             if dly != want:
                 return ("blocks", f"pass {k}: delay calls {dly}, the script only sleeps {want}")
             millis = [int(r) for _t, kind, r in evs if kind == "MILLIS"]
-            if len(millis) > len(anims):
-                return ("tick-count", f"pass {k}: {len(millis)} ticks for {len(anims)} animations")
+            if len(millis) > len(eligible):
+                return ("tick-count", f"pass {k}: {len(millis)} ticks for {len(eligible)} started animations")
             if len(millis) < n_loop:
                 return ("tick-count", f"pass {k}: {len(millis)} ticks although {n_loop} looping animations are active")
-            if prev_ticks is not None and len(millis) > prev_ticks:
+            if prev_ticks is not None and prev_eligible == len(eligible) and len(millis) > prev_ticks:
                 return ("tick-count", f"pass {k}: ticks went up from {prev_ticks} to {len(millis)}")
             prev_ticks = len(millis)
+            prev_eligible = len(eligible)
             first_ser = next((i for i, (_t, kind, _r) in enumerate(evs) if kind in ("SER", "DLY")), len(evs))
             written: Dict[int, set] = {}
             for i, (_t, kind, rest) in enumerate(evs):
@@ -653,6 +741,10 @@ class E6Anim(Engine):
                         return ("row-confinement", f"pass {k}: write in row {rw}, which has no animation")
                     if not 0 <= c < cols:
                         return ("row-confinement", f"pass {k}: write at column {c} of a {cols}-column display")
+                    if by_row[rw].get("start_pass", -1) == k:
+                        continue  # the initial frame drawn by the start call of this pass, not a tick
+                    if by_row[rw].get("start_pass", -1) > k:
+                        return ("row-confinement", f"pass {k}: write in row {rw} before its animation was started")
                     written.setdefault(rw, set()).add(c)
             now_ms = millis[0] if millis else None
             for rw, cset in written.items():
@@ -667,7 +759,7 @@ class E6Anim(Engine):
                     return ("rate-limit", f"{a['style']} row {a['row']}: steps at millis {m1} (pass {k1}) and {m2} (pass {k2}) are closer than speed_ms={sp}")
             if not a["loop"] and len(st) > case["bound"]:
                 return ("termination", f"non-looping {a['style']} made {len(st)} steps, bound {case['bound']}")
-            if case["schedule"] == "on_time" and passes >= case["bound"] + 2:
+            if case["schedule"] == "on_time" and passes >= case["bound"] + 2 + a.get("start_pass", -1) + 1:
                 last = {k for k, _m in st}
                 if not a["loop"] and (passes - 1) in last:
                     return ("termination", f"non-looping {a['style']} ({len(a['text'])} chars, {cols} cols) still stepping at pass {passes - 1}")
@@ -683,12 +775,21 @@ class E6Anim(Engine):
         for r in range(rows):
             lcd.line(r, f"row{r}"[:cols])
         untouched = {r: lcd.buffer[r] for r in range(rows) if r not in {a["row"] for a in case["anims"]}}
-        for a in case["anims"]:
+        states: List[object] = []
+        started: List[dict] = []
+
+        def start(a):
+            known = {id(x) for x in lcd.animations.values()}
             lcd.animate(a["style"], a["row"], a["text"], speed_ms=a["speed_ms"], loop=a["loop"])
-        states = list(lcd.animations.values())
+            states.extend(x for x in lcd.animations.values() if id(x) not in known)
+            started.append(a)
+
+        for a in case["anims"]:
+            if a.get("start_pass", -1) < 0:
+                start(a)
         t_us = case["world"].get("boot_us", 0)
-        last_step = {id(s): None for s in states}
-        n_steps = {id(s): 0 for s in states}
+        last_step: Dict[int, Optional[int]] = {}
+        n_steps: Dict[int, int] = {}
         for k, gap in enumerate(case["world"]["gaps"]):
             t_us += gap
             now = max(1, t_us // 1000)  # the statement quantifies over positive timestamps
@@ -702,24 +803,27 @@ class E6Anim(Engine):
             for r, text in untouched.items():
                 if lcd.buffer[r] != text:
                     return ("row-confinement", f"row {r} without animation changed to {lcd.buffer[r]!r}")
-            for s, a in zip(states, case["anims"]):
+            for s, a in zip(states, started):
                 stepped = before[id(s)][1] and s.last_tick == now and (before[id(s)][0] != now or before[id(s)][0] == 0)
                 if stepped:
-                    prev = last_step[id(s)]
+                    prev = last_step.get(id(s))
                     if prev is not None and a["speed_ms"] > 0 and prev >= 1 and now - prev < a["speed_ms"] and now != prev:
                         return ("rate-limit", f"host {a['style']}: steps at {prev} and {now} closer than speed_ms={a['speed_ms']}")
                     last_step[id(s)] = now
-                    n_steps[id(s)] += 1
+                    n_steps[id(s)] = n_steps.get(id(s), 0) + 1
                 if a["loop"] and not s.active:
                     return ("liveness", f"host looping {a['style']} became inactive at tick {k}")
-        if case["schedule"] == "on_time" and len(case["world"]["gaps"]) >= case["bound"] + 2:
-            for s, a in zip(states, case["anims"]):
+            for a in case["anims"]:
+                if a.get("start_pass", -1) == k:
+                    start(a)  # started by the user code of this pass, after the tick
+        if case["schedule"] == "on_time" and len(case["world"]["gaps"]) >= case["bound"] + 2 + max(a.get("start_pass", -1) for a in case["anims"]) + 1:
+            for s, a in zip(states, started):
                 if not a["loop"] and s.active:
                     return ("termination", f"host non-looping {a['style']} ({len(a['text'])} chars, {cols} cols) still active after {len(case['world']['gaps'])} on-time ticks")
         return None
 
     def shrink_candidates(self, case: dict):
-        if len(case["anims"]) > 1:
+        if len(case["anims"]) > 1 and all(a.get("where", "setup") == "setup" for a in case["anims"]):
             for i in range(len(case["anims"])):
                 c = copy.deepcopy(case)
                 keep = c["anims"][i]
